@@ -573,6 +573,7 @@ package spec
 //@   ensures result1 == cacheDom[uri]
 //@   ensures result1 ==> result0 == cacheDoc[uri]
 //@   ensures !result1 ==> result0 == nil
+//@   ensures !typedNil(result0)
 
 //@ iface ResolutionCache.Set
 //@   params cache, uri, data
@@ -625,6 +626,9 @@ package spec
 //@   ensures  [C18] stored @@ !old(cacheDom[loadKey(refURL)]) && docOK(loadKey(refURL)) ==> result3 == nil && result0 == docOf(loadKey(refURL)) && cacheDom[loadKey(refURL)] && cacheDoc[loadKey(refURL)] == docOf(loadKey(refURL))
 //@   ensures  [C18] failed-not-stored @@ !old(cacheDom[loadKey(refURL)]) && !docOK(loadKey(refURL)) ==> result3 != nil && cacheDom == old(cacheDom) && cacheDoc == old(cacheDoc)
 //@   ensures  [C18] cache-monotone @@ forall u string :: old(cacheDom[u]) ==> cacheDom[u] && cacheDoc[u] == old(cacheDoc[u])
+//@   ensures  [C18] only-key-written @@ forall u string :: u != loadKey(refURL) ==> cacheDom[u] == old(cacheDom[u]) && cacheDoc[u] == old(cacheDoc[u])
+//@   ensures  [C05] error-nil-doc @@ result3 != nil ==> result0 == nil
+//@   ensures  [C05] doc-not-typed-nil @@ !typedNil(result0)
 //@   ensures  [C11] loader-key-canonical @@ forall u string :: calls(r.context.loadDoc, u) > old(calls(r.context.loadDoc, u)) && cwdAvailable() ==> canonicalURL(u)
 //@   ensures  [C05] error-iff-missing @@ (result3 != nil) == (!old(cacheDom[loadKey(refURL)]) && !docOK(loadKey(refURL)))
 
@@ -650,8 +654,20 @@ package spec
 //@   ensures result != nil && ptrString(result) == (r.referenceURL == nil ? "" : r.referenceURL.Fragment)
 
 // decoding a generic JSON value into a typed target through a JSON round trip: a deep copy (assumed: swag)
+// a typed nil pointer boxed in an interface: encoding/json panics on it when the type has a value-receiver MarshalJSON
+//@ define typedNil(x interface{}) bool = reflect_kind_of(x) == 22 && payload(x) == nil
+
+// generic JSON values (what encoding/json decodes into an interface{}) are never pointers
+//@ axiom forall b []byte :: reflect_kind_of(jsonValue(b)) != 22
+//@ axiom forall x interface{} :: holds(x, "map[string]interface{}") ==> reflect_kind_of(x) == 21
+// the nil interface has the invalid kind
+//@ axiom forall x interface{} :: x == nil ==> reflect_kind_of(x) == 0
+// an unset (typed nil) member cannot be decoded
+//@ axiom forall x interface{}, t int :: typedNil(x) ==> !decodeOK(x, t)
+
 //@ ext github.com/go-openapi/swag.DynamicJSONToStruct
 //@   params data, target
+//@   requires not-typed-nil @@ !typedNil(data)
 //@   assigns region(payload(target)), modelmaps(), ghost(decodedFrom)
 //@   ensures (result == nil) == decodeOK(data, dynType(target))
 //@   ensures result == nil ==> decodedFrom == upd(old(decodedFrom), payload(target), data)
@@ -689,6 +705,7 @@ package spec
 //@ func (*schemaLoader).resolveRef
 //@   property C05, C08, C18
 //@   requires wfResolver(r) && ref != nil
+//@   assumes  [C05] root-not-typed-nil @@ !typedNil(r.root)
 //@   requires urlOK(basePath)
 //@   assigns  region(payload(target)), modelmaps(), ghost(decodedFrom, cacheDom, cacheDoc, calls, failures)
 //@   defines  failures == old(failures) + (result != nil ? 1 : 0)
@@ -1151,3 +1168,10 @@ package spec
 //@   ensures  [C08] error-iff-failure @@ (result1 != nil) == (failures > old(failures))
 //@   ensures  [C05] in-root-error-iff-undefined @@ root != nil && old(ref.referenceURL != nil && refLocalV(ref)) ==> (result1 == nil) == old(designatesV(ref, root) && decodeOK(designatedV(ref, root), typeID("*Items")))
 //@   ensures  [C05] in-root-value @@ root != nil && old(ref.referenceURL != nil && refLocalV(ref)) && result1 == nil ==> decodedFrom[result0] == old(designatedV(ref, root))
+
+//@ func ResolveRef
+//@   property C05
+//@   requires ref != nil
+//@   ensures  [C05] never-zero-value-with-nil-error @@ result1 != nil ==> result0 == nil
+//@   ensures  [C05] value-on-success @@ result1 == nil ==> result0 != nil
+//@   ensures  [C05] error-if-undefined @@ !ptrDefined(refFragment(ref), root) ==> result1 != nil
